@@ -78,6 +78,46 @@ static int64_t zigzag_decode64(uint64_t n) {
 }
 
 /* ============================================================================
+ * Bit packing of 33..64 bit values (LSB first, as for the narrower widths)
+ * ============================================================================
+ */
+
+static void delta_pack_bits64(const uint64_t* values, int count, int bit_width, uint8_t* out) {
+    size_t bit_pos = 0;
+    memset(out, 0, ((size_t)count * (size_t)bit_width + 7) / 8);
+    for (int i = 0; i < count; i++) {
+        uint64_t val = values[i];
+        int remaining = bit_width;
+        while (remaining > 0) {
+            int offset = (int)(bit_pos & 7);
+            int n = 8 - offset;
+            if (n > remaining) n = remaining;
+            out[bit_pos >> 3] |= (uint8_t)((val & ((1u << n) - 1u)) << offset);
+            val >>= n;
+            bit_pos += (size_t)n;
+            remaining -= n;
+        }
+    }
+}
+
+static void delta_unpack_bits64(const uint8_t* in, int count, int bit_width, uint64_t* values) {
+    size_t bit_pos = 0;
+    for (int i = 0; i < count; i++) {
+        uint64_t val = 0;
+        int got = 0;
+        while (got < bit_width) {
+            int offset = (int)(bit_pos & 7);
+            int n = 8 - offset;
+            if (n > bit_width - got) n = bit_width - got;
+            val |= (uint64_t)((in[bit_pos >> 3] >> offset) & ((1u << n) - 1u)) << got;
+            bit_pos += (size_t)n;
+            got += n;
+        }
+        values[i] = val;
+    }
+}
+
+/* ============================================================================
  * Delta Decoder Implementation
  * ============================================================================
  */
@@ -189,22 +229,24 @@ static carquet_status_t delta_decoder_read_mini_block(delta_decoder_t* dec) {
         }
 
         dec->pos += packed_size;
-    } else {
-        /* Unpack 64-bit values (stored as little-endian bytes) */
-        int bytes_per_value = (bit_width + 7) / 8;
-        size_t packed_size = mini_block_size * bytes_per_value;
+    } else if (bit_width <= 64) {
+        /* Deltas of 33..64 bits are bit-packed like the narrower ones */
+        size_t packed_size = ((size_t)mini_block_size * (size_t)bit_width + 7) / 8;
         if (dec->pos + packed_size > dec->size) {
             return CARQUET_ERROR_DECODE;
         }
 
+        uint64_t unpacked[DELTA_MINI_BLOCK_SIZE];
+        delta_unpack_bits64(dec->data + dec->pos, mini_block_size, bit_width, unpacked);
+
         for (int i = 0; i < mini_block_size; i++) {
-            uint64_t val = 0;
-            for (int b = 0; b < bytes_per_value; b++) {
-                val |= (uint64_t)dec->data[dec->pos++] << (b * 8);
-            }
             /* Use unsigned addition to avoid overflow UB */
-            dec->mini_block_values[i] = (int64_t)((uint64_t)dec->min_delta + val);
+            dec->mini_block_values[i] = (int64_t)((uint64_t)dec->min_delta + unpacked[i]);
         }
+
+        dec->pos += packed_size;
+    } else {
+        return CARQUET_ERROR_DECODE;
     }
 
     dec->current_mini_block++;
@@ -389,13 +431,8 @@ static carquet_status_t delta_encoder_flush_block(delta_encoder_t* enc) {
         bit_widths[mb] = (uint8_t)bit_width_required(max_val);
         if (bit_widths[mb] > 0) {
             /* Calculate bytes needed for this mini-block */
-            if (bit_widths[mb] <= 32) {
-                /* Bitpacked: mini_block_size values * bit_width / 8 */
-                packed_bytes_needed += (size_t)mini_block_size * bit_widths[mb] / 8;
-            } else {
-                /* Byte-by-byte: mini_block_size values * bytes_per_value */
-                packed_bytes_needed += (size_t)mini_block_size * ((bit_widths[mb] + 7) / 8);
-            }
+            /* Bitpacked: mini_block_size values * bit_width / 8 */
+            packed_bytes_needed += (size_t)mini_block_size * bit_widths[mb] / 8;
         }
     }
 
@@ -434,21 +471,18 @@ static carquet_status_t delta_encoder_flush_block(delta_encoder_t* enc) {
             enc->pos += carquet_bitpack_32(to_pack, mini_block_size,
                                             bit_widths[mb], enc->data + enc->pos);
         } else {
-            /* For bit widths > 32, pack directly as bytes (little-endian) */
-            int bytes_per_value = (bit_widths[mb] + 7) / 8;
+            /* Bit widths 33..64 are bit-packed as well */
+            uint64_t to_pack[DELTA_MINI_BLOCK_SIZE];
             for (int i = start; i < end; i++) {
                 /* Use unsigned subtraction to avoid overflow UB */
-                uint64_t adjusted = (uint64_t)enc->deltas[i] - (uint64_t)min_delta;
-                for (int b = 0; b < bytes_per_value; b++) {
-                    enc->data[enc->pos++] = (uint8_t)(adjusted >> (b * 8));
-                }
+                to_pack[i - start] = (uint64_t)enc->deltas[i] - (uint64_t)min_delta;
             }
             /* Pad with zeros */
             for (int i = end - start; i < mini_block_size; i++) {
-                for (int b = 0; b < bytes_per_value; b++) {
-                    enc->data[enc->pos++] = 0;
-                }
+                to_pack[i] = 0;
             }
+            delta_pack_bits64(to_pack, mini_block_size, bit_widths[mb], enc->data + enc->pos);
+            enc->pos += (size_t)mini_block_size * bit_widths[mb] / 8;
         }
     }
 
